@@ -111,9 +111,10 @@ static std::string scenario_contact(int ncells) {
 static std::string scenario_solver_division(int ready_mask) {
     simucell3d_verif::g_base_seed = 999; simucell3d_verif::reset_rng_counters(); srand(1);
     std::vector<sw::CellSpec> cs; for (int i = 0; i < 3; i++) { auto ty = sc::make_cell_type(0, 3); ty->bulk_modulus_ = 5; for (auto& f : ty->face_types_) f.surface_tension_ = 0.3; ty->avg_division_vol_ = (ready_mask >> i & 1) ? 1.0 : std::numeric_limits<double>::infinity(); ty->std_division_vol_ = 0;
-        cs.push_back({sc::translated(sc::scaled(sc::transformed(sc::icosphere(1), sc::matmul(sc::rot_x_51213(), sc::rot_z_345()), {0, 0, 0}), 1.3, 1.0, 0.8), 4.0 * i, 0.3 * i, 0), ty}); }
+        cs.push_back({sc::translated(sc::scaled(sc::transformed(sc::icosphere(1), sc::matmul(sc::rot_x_51213(), sc::rot_z_345()), {0, 0, 0}), 1.3, 1.0, 0.8), 10.5 + 4.0 * i, -6.75, 0.75), ty}); }
     global_simulation_parameters p = sc::make_sim_params(sw::scratch_root() + "/c15g", 0.25); p.time_step_ = 1e-3; p.sampling_period_ = 1e9; p.simulation_duration_ = 1e9;
-    std::string d; { sw::World W(cs, p); g_cur_solver = W.s.get(); W.s->run_iteration(); g_cur_solver = nullptr; d = describe(W.cells()); }
+    std::string d; { sw::World W(cs, p); g_cur_solver = W.s.get(); W.s->run_iteration(); g_cur_solver = nullptr; d = describe(W.cells()); for (auto& c : W.cells()) d += " id" + std::to_string(c->get_id()); }
+    if (getenv("C15_DEBUG")) fprintf(stderr, "G: %s\n", d.c_str());
     return d;
 }
 
@@ -159,7 +160,7 @@ static void explore(Result& R) {
     if (CONTACT_MODEL_INDEX != 1) { std::vector<Sub> only; for (auto& x : subs) if (x.name.rfind("contact phase", 0) == 0) only.push_back(x); subs = only; }   // the other contact-model builds run the contact sub-check only
     else {
     // (g)
-    for (int mask : {1, 5}) subs.push_back({"solver-iteration-with-division ready=" + std::to_string(mask) + " T=2", 2, 1, [mask] { return scenario_solver_division(mask); }, nullptr, hash_world, "@serial"});
+    for (int mask : {1, 2, 3}) { if (!th && mask == 3) continue; subs.push_back({"solver-iteration-with-division ready=" + std::to_string(mask) + " T=2", 2, th ? 1 : 0, [mask] { return scenario_solver_division(mask); }, nullptr, hash_world, "@serial"}); }
     // (e)
     for (int T : {2, 3}) subs.push_back({"mesh_writer::write, three cells with free slots, T=" + std::to_string(T), T, th ? 2 : 1, [] { return scenario_write(3); }, nullptr, nullptr, "@serial"});
     // (b)
